@@ -199,7 +199,7 @@ static void late_waiter_rounds(uint64_t* rng) {
 // registrations. Signals == waits, and every signal finds at least one registered waiter: all waits must return. A signal that
 // gives up (a failed compare-and-swap taken for "no waiter") leaves one wait without its signal for good.
 static long xh_credits;  // under mu
-static _Atomic long xh_returned, xh_target;
+static _Atomic long xh_returned, xh_target, xh_signalled;
 static int xh_waits;
 static void* xh_waiter(void* a) {
   fb_slot_t* s = (fb_slot_t*)a;
@@ -216,7 +216,9 @@ static void* xh_waiter(void* a) {
 }
 static void* xh_signaller(void* a) {
   fb_slot_t* s = (fb_slot_t*)a;
-  while (atomic_load(&xh_returned) < atomic_load(&xh_target)) {
+  // exactly one signal per wait: the signallers leave once all of them have been issued. If a wait is then still blocked, nothing
+  // runs any more and the runtime goes quiescent with a stranded waiter.
+  while (atomic_load(&xh_signalled) < atomic_load(&xh_target)) {
     int take = 0;
     fiber_mutex_lock(&mu);
     if (xh_credits > 0) {
@@ -226,6 +228,7 @@ static void* xh_signaller(void* a) {
     fiber_mutex_unlock(&mu);
     if (take) {
       FB_BLOCKING(s, "C05 fiber_cond_signal", fiber_cond_signal(&cv));
+      atomic_fetch_add(&xh_signalled, 1);
       vp_add(c_signals, 1);
     } else {
       fiber_yield();
@@ -239,6 +242,7 @@ static void exact_hammer(uint64_t* rng) {
   xh_waits = 100 + (int)(vp_rand(rng) % (unsigned)vp_param("exact_waits", 400));
   xh_credits = 0;
   atomic_store(&xh_returned, 0);
+  atomic_store(&xh_signalled, 0);
   atomic_store(&xh_target, (long)W * xh_waits);
   fb_slots_reset();
   int n = 0, i;
